@@ -166,6 +166,34 @@ def rule_a(ctx, R):
             if pl and (pl["l"] in elem_locals or any(e["k"] in ("index", "constindex") for e in pl["p"])):
                 ok = False
                 det.append("returns a slice element")
+        if not ok and det == ["returns a slice element"] and not fi.get("pub"):
+            # a private accessor that hands out the element (`fn const_builder(&self) -> &T`): fine when every caller uses the result
+            # only as the receiver of a constant builder — the element's value still goes nowhere
+            sites_ok, n_sites = True, 0
+            for k2, b2 in f.mir.items():
+                v2 = None
+                for bi2, t2 in b2.calls():
+                    if R.body_of_callee(t2.get("callee")) is not b:
+                        continue
+                    n_sites += 1
+                    v2 = v2 or Vals(b2)
+                    droot = v2.root_place({"l": t2["dest"]["l"], "p": []})
+                    own2 = (f.ty((f.fns.get(b2.path) or {}).get("impl_self") or "") or {}).get("path") == adt
+                    if not own2:
+                        sites_ok = False
+                    for bi3, t3 in b2.calls():
+                        for ai3, a3 in enumerate(t3["args"]):
+                            if a3["k"] in ("copy", "move") and v2.root(a3) == droot:
+                                if not (callee_is(t3, trait="MomTropFloat", name=BUILDERS_NOARG + BUILDERS_VALUE) and ai3 == 0):
+                                    sites_ok = False
+                    for bi3, si3, st3 in pat.stmts(b2):
+                        if st3["place"]["l"] == 0:
+                            pl3 = st3["rv"].get("place") or (st3["rv"].get("op") or {}).get("place")
+                            if pl3 and v2.root_place(pl3) == droot:
+                                sites_ok = False
+            if sites_ok and n_sites >= 1:
+                ok = True
+                det = ["private accessor: all %d call sites use the element only as a constant-builder receiver" % n_sites]
         ctx.ob("C14-a", "%s uses slice elements only as receiver of a constant builder" % norm_path(b.path), ok, b.path, "reader-builder-uses-element",
                detail="; ".join(det))
 
